@@ -579,3 +579,100 @@ def shape_table_to_coq(name, rows, header, params='(v_argw : list Z) (v_nparam :
         out.append('  | _ => None')
     out.append('  end.')
     return '\n'.join(out) + '\n'
+
+
+# ---------------------------------------------------------------------------
+# Shape matching and loop-body translation (appended for C01; generic, changes
+# no existing behaviour).
+#
+# `same_ast` / `require_same` compare a statement or expression with the AST of
+# a given source text (comments, whitespace and redundant parentheses are not
+# part of the AST; everything else is).  `assign_chain` turns the body of a
+# simple accumulator loop -- a list of assignments to plain local names -- into
+# one Gallina expression for the final value of the accumulator.
+# `reversed_slice` recognises the iteration direction `X` / `X[::-1]`.
+
+def strip_docstring(body):
+    body = list(body)
+    if body and isinstance(body[0], ast.Expr) and isinstance(body[0].value, ast.Constant) \
+            and isinstance(body[0].value.value, str):
+        body = body[1:]
+    return body
+
+
+def ast_of(src, mode='stmt'):
+    """AST of one statement (mode 'stmt') or one expression (mode 'expr') given as text."""
+    if mode == 'expr':
+        return ast.parse(textwrap.dedent(src).strip(), mode='eval').body
+    body = ast.parse(textwrap.dedent(src)).body
+    if len(body) != 1:
+        raise ValueError('ast_of: expected exactly one statement')
+    return body[0]
+
+
+def dump_noctx(node):
+    """ast.dump without the Load/Store/Del context (it is determined by the position in the parent)"""
+    import re
+    return re.sub(r'(, )?ctx=(Load|Store|Del)\(\)', '', ast.dump(node))
+
+
+def same_ast(node, src, mode='stmt'):
+    return node is not None and dump_noctx(node) == dump_noctx(ast_of(src, mode))
+
+
+def require_same(node, src, what, mode='stmt'):
+    """Fail closed unless `node` is exactly the statement/expression `src`."""
+    if not same_ast(node, src, mode):
+        got = '<missing>' if node is None else ast.unparse(node)
+        raise Untranslatable('%s: expected `%s`, found `%s` (line %s)' % (
+            what, ' '.join(textwrap.dedent(src).split()), ' '.join(got.split())[:160],
+            getattr(node, 'lineno', '?')))
+
+
+def reversed_slice(node):
+    """`X[::-1]` -> (X, True); any other expression -> (node, False)."""
+    if isinstance(node, ast.Subscript) and isinstance(node.slice, ast.Slice):
+        s = node.slice
+        if s.lower is None and s.upper is None and isinstance(s.step, ast.UnaryOp) \
+                and isinstance(s.step.op, ast.USub) and isinstance(s.step.operand, ast.Constant) \
+                and s.step.operand.value == 1 and not isinstance(s.step.operand.value, bool):
+            return node.value, True
+        _fail(node, 'only the whole-sequence reversal [::-1] is supported')
+    return node, False
+
+
+def assign_chain(stmts, env, hook, result):
+    """stmts: `name = expr` / `name op= expr` on plain local names, integer typed.
+    -> Gallina text (type Z) of the value `result` holds after the last statement.
+    `env` types the names that are live on entry (it must contain `result`)."""
+    if not stmts:
+        raise Untranslatable('empty statement list where assignments to %r were expected' % result)
+    if result not in env:
+        raise Untranslatable('%r is not bound before the statements' % result)
+    entry = set(env)
+    env = dict(env)
+    lets = []
+    for s in stmts:
+        if isinstance(s, ast.Assign):
+            if len(s.targets) != 1 or not isinstance(s.targets[0], ast.Name):
+                _fail(s, 'only assignment to one plain name')
+            name, value = s.targets[0].id, s.value
+        elif isinstance(s, ast.AugAssign):
+            if not isinstance(s.target, ast.Name):
+                _fail(s, 'only augmented assignment to a plain name')
+            name = s.target.id
+            value = ast.BinOp(left=ast.Name(id=name, ctx=ast.Load()), op=s.op, right=s.value)
+            ast.copy_location(value, s)
+            ast.fix_missing_locations(value)
+        else:
+            _fail(s, 'unsupported statement in an accumulator loop body')
+        if name != result and name in entry:
+            _fail(s, 'loop-carried state other than %r (%r is live on entry and reassigned)' % (result, name))
+        tr = ExprTr(env, hook)
+        txt = tr.as_Z(tr.tr(value))
+        lets.append((coq_ident(name), txt))
+        env[name] = (coq_ident(name), 'Z')
+    out = env[result][0]
+    for nm, txt in reversed(lets):
+        out = '(let %s := %s in %s)' % (nm, txt, out)
+    return out
